@@ -25,6 +25,9 @@ Specification:
     worklist model marks.  The harness writes the image as a binary and as an Intel-hex file, runs the real dasl on
     both (and on every 10th image additionally with `-entryaddress <addr>,<name>`), feeds stdout - prefixed only by
     `cpu <name>` - to the real asl -> p2bin and compares bytes over the areas dasl lists as disassembled.
+    Dasm_Cover EInit (Dasm_Edge_*.cfg): page-edge images - every instruction whose target depends on its own address
+    (4004 JCN / ISZ in-page rule, FIN / JIN; 6800 all relative branches and BSR) with its first byte at page offsets
+    FC, FD, FE, FF, 00 of two page boundaries, once per legal target item before and behind it (328 images).
     Verdict-bearing: dasl ends normally; -binfile and -hexfile give the same text; asl accepts the text; bytes
     identical over the listed areas; listed code and data areas disjoint and inside the image.  When asl rejects the
     text, the cause is classified from the failing line and (diagnosis only) repaired so that the remaining checks
@@ -34,7 +37,8 @@ Specification:
     slices, entry = first address); round trip + disjoint/inside checks, NO reachability oracle; an image whose
     branches leave the image is outside the property's domain and not judged.
 
-quick: 2 x 2 x 150 simulated traces + 44 coverage images + 21 golden 87C800 images; thorough: 2 x 4 x 5000 traces and
+quick: 2 x 2 x 150 simulated traces + 44 coverage images + 328 page-edge images + 31 golden 87C800 images (20 of
+them slices relocated to origins F0..100h and 7FF7h); thorough: 2 x 4 x 5000 traces and
 4-cell exhaustive models.
 
 NOT covered: CPU name 6802 (dasl knows it, asl does not); -symbol; LSB vectors; images with several chunks; forced
@@ -46,11 +50,14 @@ Findings on the pinned tree (known_findings/C15.json; the diffs proposed_fixes/C
 flow-flags one are applied to /repo by now, so the entries are "fixed" and suppress nothing): `org $hex` headers rejected for
 4004/87C800; vector message printed to stdout; named direct entry refused; 87C800 label `h` suffix and
 register-prefixed ALU immediate without `h`; 6800 `dess`; 4004 JIN falls through into data; 4004 ISZ page rule.
+Still open ("known", proposed_fixes/C15-4004-jcn-forward-label-page.diff): asl rejects a JCN at xFE/xFF whose next-page
+target is a label defined further down (found by the page-edge images).
 
 Mutations tried on a scratch copy containing the proposed fixes (`VERIF_REPO=... ./check C15`), all reported:
   deco68.c mnemonic of 4C inca->deca (bytes differ); deco68.c branch target pc+2 -> pc+1 (undefined label);
   deco4004.c FIM pair number (bytes differ); das.c hex loader start +1 (hex/bin differ); das.c code chunk length +1
-  (rejected); code68.c TAB opcode 16 -> 17 (assembler side: bytes differ; fails 1 ctest); deco68.c extended operand
+  (rejected); deco4004.c ROM page of the ISZ target from Address+1 instead of Address+2 (only wrong at offset xFE: 10
+  page-edge images rejected, quick tier) and the same for JCN; code68.c TAB opcode 16 -> 17 (assembler side: bytes differ; fails 1 ctest); deco68.c extended operand
   byte order (undefined label).
 """
 import os
@@ -172,6 +179,11 @@ def judge_image(rep, bld, im, dcpu, aslcpu, oracle=True):
         tried += 1
         n, line = failing_line(msgs, text, aslcpu)
         cause = cause_of(line) if line else "unknown"
+        if cause in ("jcn", "jcm") and n is not None and "jump distance" in msgs:
+            # JCN in the last two words of a ROM page with a label operand that is defined further down
+            fa = dasm.addr_of_line(text, n)
+            if fa is not None and fa % 256 in (254, 255):
+                cause = "jcn-forward-label-at-page-end"
         if oracle and n is not None and "stopends" in im:
             # the rejected line lies in an area the Dasm model does not mark as code and that starts directly behind
             # a reachable indirect jump: the real tracer fell through an unconditional jump into data
@@ -235,6 +247,10 @@ def golden_87c800(bld):
     r = rng("c15/87c800")
     for k in range(0, len(ins), 12):
         progs.append(("slice%d" % k, head + ins[k:k + 12]))
+    # relocated slices: the relative jumps (jrs / jr in the first slices) land on different offsets around a page end
+    for k in (0, 12):
+        for o in (0xF0, 0xF3, 0xF6, 0xF9, 0xFC, 0xFD, 0xFE, 0xFF, 0x100, 0x7FF7):
+            progs.append(("slice%d@%X" % (k, o), head + ["\torg\t%d" % o] + ins[k:k + 12]))
     out = []
     for name, lines in progs:
         res = aslrun.assemble(bld, {"a.asm": "\n".join(lines) + "\n"}, opts=["-q", "-i", aslrun.INCLUDE])
@@ -268,7 +284,8 @@ def main(tier):
         cfgs += ["Dasm_MC4.cfg", "Dasm_MC4_6800.cfg"]
     n = 150 if quick else 5000
     gens = [("4004", "Dasm_Gen_4004.cfg", 11, "4004", "4004"), ("6800", "Dasm_Gen_6800.cfg", 13, "6800", "6800")]
-    covs = [("4004", "Dasm_Cover_4004.cfg"), ("6800", "Dasm_Cover_6800.cfg")]
+    covs = [("4004", "Dasm_Cover_4004.cfg"), ("6800", "Dasm_Cover_6800.cfg"),
+            ("4004", "Dasm_Edge_4004.cfg"), ("6800", "Dasm_Edge_6800.cfg")]
 
     def tlc_task(t):
         if t[0] == "mc":
@@ -323,8 +340,8 @@ def main(tier):
             im["named_entry"] = False
             images.append((im, iname, iname))
             ids.update(i for i in im["ids"])
-        rep.model("Dasm_Cover(%s)" % iname, cr)
-        rep.part("Dasm_Cover(%s)" % iname, images=len(cr.printed), forms_covered=len(ids))
+        rep.model("Dasm_Cover(%s)" % cfgname, cr)
+        rep.part("Dasm_Cover(%s)" % cfgname, images=len(cr.printed), forms_covered=len(ids))
     for g, s in zip(gens, sims):
         tlc.must(s, "Dasm_Gen(%s)" % g[0])
         if s.violation:
